@@ -16,7 +16,7 @@ From SV Require Import Lib.Base Gen.Consts.
 From SV Require Import Model.Seq32 Model.Assembler Model.TcpBuf Model.TcpTypes Model.Tcp Model.TcpNet.
 From SV Require Import Proofs.TcpSendBase Proofs.TcpLiveBase Proofs.TcpLiveProofs Proofs.TcpLiveMore Proofs.TcpLiveProgress.
 From SV Require Import Proofs.TcpNetBase.
-From SV Require Import Proofs.TcpProgressBase Proofs.TcpProgressFrame Proofs.TcpProgressRecv Proofs.TcpProgressSend Proofs.TcpProgressNet Proofs.TcpProgressData Proofs.TcpProgressAck Proofs.TcpProgressAll Proofs.TcpProgressExample.
+From SV Require Import Proofs.TcpProgressBase Proofs.TcpProgressFrame Proofs.TcpProgressRecv Proofs.TcpProgressSend Proofs.TcpProgressNet Proofs.TcpProgressData Proofs.TcpProgressAck Proofs.TcpProgressAll Proofs.TcpProgressExample Proofs.TcpProgressWitness.
 
 (* ---------------------------------------------------------------------------------------------
    1. the fairness hypothesis is satisfiable, and what the model does on a fair run
@@ -325,3 +325,41 @@ Theorem C02live_all_written_bytes_eventually_acked_partial : forall x Dt Da Dack
                        L0 <= una_off (net_get st1 x) /\ L0 <= rcv_off (net_get st1 (side_other x)).
 Proof. exact all_written_bytes_eventually_acked. Qed.
 Print Assumptions C02live_all_written_bytes_eventually_acked_partial.
+
+(* NI holds in the initial state of the system model (hence, with C02live_run_invariant, in every
+   state of every run): NoControl / Reno with a positive window, clocks not negative *)
+Theorem C02live_run_invariant_initial : forall ca cb st,
+  cc_ok (c_cc ca) -> cc_ok (c_cc cb) -> 0 <= c_now ca -> 0 <= c_now cb ->
+  net_init ca cb = Ok st -> NI st.
+Proof. exact NI_init. Qed.
+Print Assumptions C02live_run_invariant_initial.
+
+(* NON-VACUITY of the composition: a run from net_init with a LOSSY prefix (A's data segment is
+   dropped) and a fair suffix (retransmission at the RTO deadline, delivery, delayed ACK, then more
+   than 5 rounds of time) satisfies EVERY hypothesis of the step-5 theorem - the run hypotheses
+   [safe3] are checked in every state of the suffix by a decision procedure proved sound - ... *)
+Theorem C02live_composition_hypotheses_satisfiable :
+  exists st0 st st',
+    net_init ex_cfg_a ex_cfg_b = Ok st0 /\ net_run st0 wit_prefix = Ok st /\
+    NI st /\ opts_ok st /\ dl_sync (fa_init 5000 5000 st) st /\
+    run_all (safe3 SA 10000) st wit_suffix /\ fair_run 5000 5000 (fa_init 5000 5000 st) st wit_suffix /\
+    net_run st wit_suffix = Ok st' /\
+    5 <= l_len (ep_written (net_get st SA)) /\ 5 - una_off (net_get st SA) <= Z.of_nat 5 /\
+    net_now st SA + Z.of_nat 5 * W3 5000 10000 < net_now st' SA.
+Proof. exact composition_hypotheses_satisfiable. Qed.
+Print Assumptions C02live_composition_hypotheses_satisfiable.
+
+(* ... and the prefix really loses a segment *)
+Theorem C02live_witness_prefix_is_lossy : In (NDrop SB 2) wit_prefix.
+Proof. exact wit_prefix_lossy. Qed.
+Print Assumptions C02live_witness_prefix_is_lossy.
+
+(* ... so the theorem applies: the run passes through a state in which all 5 octets are acknowledged
+   and accepted by B's receive path *)
+Theorem C02live_composition_applies :
+  exists st0 st st',
+    net_init ex_cfg_a ex_cfg_b = Ok st0 /\ net_run st0 wit_prefix = Ok st /\ net_run st wit_suffix = Ok st' /\
+    exists pre post st1, wit_suffix = pre ++ post /\ net_run st pre = Ok st1 /\ net_run st1 post = Ok st' /\
+                         5 <= una_off (net_get st1 SA) /\ 5 <= rcv_off (net_get st1 SB).
+Proof. exact composition_applies. Qed.
+Print Assumptions C02live_composition_applies.
